@@ -10,8 +10,9 @@
 //
 // Observation: "<Left() before start> <finish offset> <post> <n> <t0,t1,...|->" where the
 // t_k are the offsets (ns) from the Start instant of the tokens returned with ok=true, the
-// finish offset is the instant returned with the first ok=false, and post=1 iff three more
-// Next calls return the same instant with ok=false and Left() is 0 afterwards.
+// finish offset is the instant returned with the first ok=false, and post=1 iff Left() is 0
+// once exhausted ("left" otherwise) and three more Next calls return the same instant with
+// ok=false ("next" otherwise).
 package main
 
 import (
@@ -85,21 +86,21 @@ func runCase(c string) (res string) {
 			return "toomany"
 		}
 	}
-	post := true
+	post := "1"
+	if s.Left() != 0 {
+		post = "left" // Left() of an exhausted schedule is not 0
+	}
 	for i := 0; i < 3; i++ {
 		tx, ok := s.Next()
 		if ok || !tx.Equal(fin) {
-			post = false
+			post = "next" // an exhausted schedule hands out a token or another finish instant
 		}
-	}
-	if s.Left() != 0 {
-		post = false
 	}
 	ts := "-"
 	if len(toks) > 0 {
 		ts = strings.Join(toks, ",")
 	}
-	return fmt.Sprintf("%d %d %s %d %s", left, int64(fin.Sub(t0)), vh.B(post), len(toks), ts)
+	return fmt.Sprintf("%d %d %s %d %s", left, int64(fin.Sub(t0)), post, len(toks), ts)
 }
 
 // ---- generator ---------------------------------------------------------------------
